@@ -1,0 +1,12 @@
+//go:build verif
+
+// Contracts for package certs, checked by /verif (govc). Comment-only; compiled only under -tags verif.
+package certs
+
+//@ func TemplateFromCert
+//@   requires cert != nil
+//@   assigns nothing
+//@   ensures[C12] err == nil ==> result != nil && fresh(result) && result.Subject.SerialNumber == bigStr(result.SerialNumber)
+//@   ensures[C12] err == nil ==> result.IsCA == cert.IsCA && result.KeyUsage == cert.KeyUsage && result.SignatureAlgorithm == cert.SignatureAlgorithm
+//@   ensures[C12] err == nil && cert.IsCA ==> result.NotAfter == timeAdd(result.NotBefore, 9131 * 24 * 3600000000000)
+//@   ensures[C12] err == nil && !cert.IsCA ==> result.NotAfter == timeAdd(result.NotBefore, 1826 * 24 * 3600000000000) && result.Issuer == cert.Issuer
